@@ -153,5 +153,201 @@ theorem body_series (pts : Array Pt) (o : Series) (allow : Bool)
     rw [← this]
     exact inRing_false_of_outside pts _ (by simpa using hqc)
 
+/-! ### a rectangle as argument -/
+
+theorem rect_edges (lo hi : Pt) :
+    Spec.edges (Spec.rectPts lo hi) true =
+      [(lo, ⟨hi.x, lo.y⟩), (⟨hi.x, lo.y⟩, hi), (hi, ⟨lo.x, hi.y⟩), (⟨lo.x, hi.y⟩, lo)] := by
+  simp [Spec.edges, Spec.rectPts]
+
+/-- well-formed rectangle -/
+def BoxOk (r : Box) : Prop := r.min.x ≤ r.max.x ∧ r.min.y ≤ r.max.y
+
+/-- the four sides of `r` avoid the chain: all four corners are off the chain and have the same
+    membership, every point of every side included -/
+theorem box_sides (pts : List Pt) (r : Box)
+    (hav : NoContact (Spec.edges pts true) (Spec.edges (Spec.rectPts r.min r.max) true)) :
+    (∀ j, j < 4 → Avoids pts (r.segmentAt j)) ∧
+    (∀ i, Spec.onBoundary (Spec.edges pts true) (r.pointAt i) = false ∧
+      Spec.inRing (Spec.edges pts true) (r.pointAt i) = Spec.inRing (Spec.edges pts true) r.min) := by
+  rw [rect_edges] at hav
+  have s0 : Avoids pts (r.segmentAt 0) := fun e he => hav e he (r.min, ⟨r.max.x, r.min.y⟩) (by simp)
+  have s1 : Avoids pts (r.segmentAt 1) := fun e he => hav e he (⟨r.max.x, r.min.y⟩, r.max) (by simp)
+  have s2 : Avoids pts (r.segmentAt 2) := fun e he => hav e he (r.max, ⟨r.min.x, r.max.y⟩) (by simp)
+  have s3 : Avoids pts (r.segmentAt 3) := fun e he => hav e he (⟨r.min.x, r.max.y⟩, r.min) (by simp)
+  have b0 := onBoundary_false_of_avoids s0
+  have b1 := onBoundary_false_of_avoids s1
+  have b2 := onBoundary_false_of_avoids s2
+  have c0 := (inRing_const_of_avoids pts _ _ s0).1
+  have c1 := (inRing_const_of_avoids pts _ _ s1).1
+  have c2 := (inRing_const_of_avoids pts _ _ s2).1
+  simp only [Box.segmentAt] at b0 b1 b2 c0 c1 c2
+  refine ⟨?_, ?_⟩
+  · intro j hj
+    match j, hj with
+    | 0, _ => exact s0
+    | 1, _ => exact s1
+    | 2, _ => exact s2
+    | 3, _ => exact s3
+  · intro i
+    have e0 : r.pointAt 0 = r.min := rfl
+    match i with
+    | 0 => exact ⟨b0.1, rfl⟩
+    | 1 => exact ⟨b0.2, c0.symm⟩
+    | 2 => exact ⟨b1.2, by rw [← c0] at c1; exact c1.symm⟩
+    | 3 => exact ⟨b2.2, by rw [← c0] at c1; rw [← c1] at c2; exact c2.symm⟩
+    | (k+4) => exact ⟨b0.1, rfl⟩
+
+theorem body_box (pts : Array Pt) (r : Box) (allow : Bool)
+    (hav : NoContact (Spec.edges pts.toList true) (Spec.edges (Spec.rectPts r.min r.max) true)) :
+    ringContainsRingBody (ringOf pts) (.bx r) allow = Spec.inRing (Spec.edges pts.toList true) r.min := by
+  obtain ⟨hs, hp⟩ := box_sides pts.toList r hav
+  apply body_core pts (.bx r) allow _ (by show 0 < 5; omega) (by show 0 < 4; omega)
+  · intro i _
+    exact hp i
+  · intro j hj
+    refine ⟨hs j hj, ?_⟩
+    have hj' : j < 4 := hj
+    match j, hj' with
+    | 0, _ => exact (hp 0).2
+    | 1, _ => exact (hp 1).2
+    | 2, _ => exact (hp 2).2
+    | 3, _ => exact (hp 3).2
+  · intro hc
+    have hc' : (ringOf pts).rect.containsBox r = false := hc
+    have hnot : ¬ ((ringOf pts).rect.min.x ≤ r.min.x ∧ r.max.x ≤ (ringOf pts).rect.max.x ∧
+        (ringOf pts).rect.min.y ≤ r.min.y ∧ r.max.y ≤ (ringOf pts).rect.max.y) := by
+      rw [← containsBox_iff, hc']; simp
+    by_cases hmin : (ringOf pts).rect.containsPt r.min = true
+    · by_cases hmax : (ringOf pts).rect.containsPt r.max = true
+      · rw [containsPt_iff] at hmin hmax
+        exact absurd ⟨hmin.1, hmax.2.1, hmin.2.2.1, hmax.2.2.2⟩ hnot
+      · rw [← (hp 2).2]
+        have e2 : r.pointAt 2 = r.max := rfl
+        rw [e2]
+        exact inRing_false_of_outside pts _ (by simpa using hmax)
+    · exact inRing_false_of_outside pts _ (by simpa using hmin)
+
 end Contains
+
+open Contains
+
+/-! ### the theorems -/
+
+theorem ringOf_empty (pts : Array Pt) : (ringOf pts).empty = decide (pts.size < 3) := by
+  show ((true && decide (pts.size < 3)) || decide (pts.size < 2)) = _
+  by_cases h : pts.size < 3
+  · simp [h]
+  · simp [h]; omega
+
+/-- a closed chain with fewer than three points has no edge -/
+theorem edges_nil_of_short (pts : List Pt) (h : pts.length < 3) : Spec.edges pts true = [] := by
+  unfold Spec.edges
+  simp [h]
+
+theorem inRing_nil (p : Pt) : Spec.inRing [] p = false := rfl
+
+/-- **`ringContainsRing` without boundary contact, fewer than 16 points**: the answer is the
+    membership of the first vertex of the argument (and the argument is not empty).  The
+    argument is any series (ring or line, any index) carrying its `processPoints` rectangle. -/
+theorem ringContainsRing_of_avoids (pts : Array Pt) (o : Series) (allowOnEdge : Bool)
+    (hrect : o.rect = (processPoints o.pts o.closed).rect)
+    (hav : NoContact (Spec.edges pts.toList true) (Spec.edges o.pts.toList o.closed))
+    (hsmall : o.numPoints < 16) :
+    ringContainsRing (.ser (mkSeries pts true .none 0)) (.ser o) allowOnEdge =
+      (!o.empty && Spec.inRing (Spec.edges pts.toList true) o.pts[0]!) := by
+  unfold ringContainsRing
+  have hs : (decide ((Ring.ser o).numPoints ≥ complexRingMinPoints)) = false := by
+    simp only [decide_eq_false_iff_not, ge_iff_le, not_le]
+    exact hsmall
+  rw [hs, Bool.false_and]
+  simp only [Bool.false_eq_true, if_false]
+  by_cases he : o.empty = true
+  · simp [Ring.empty, he]
+  · have he' : o.empty = false := by simpa using he
+    by_cases h3 : pts.size < 3
+    · have : (ringOf pts).empty = true := by rw [ringOf_empty]; simpa using h3
+      rw [show (Ring.ser (mkSeries pts true .none 0)) = ringOf pts from rfl, this]
+      rw [edges_nil_of_short pts.toList (by simpa using h3), inRing_nil]
+      simp
+    · have : (ringOf pts).empty = false := by rw [ringOf_empty]; simpa using h3
+      rw [show (Ring.ser (mkSeries pts true .none 0)) = ringOf pts from rfl, this]
+      simp only [Ring.empty, he', Bool.or_false, Bool.false_eq_true, if_false, Bool.not_false,
+        Bool.true_and]
+      exact body_series pts o allowOnEdge hrect he' hav
+
+/-- the rectangle shortcut is sound when the ring also avoids the sides of the argument's
+    rectangle -/
+theorem shortcut_sound (pts : Array Pt) (o : Series) (allowOnEdge : Bool)
+    (hrect : o.rect = (processPoints o.pts o.closed).rect) (hne : o.empty = false)
+    (hav : NoContact (Spec.edges pts.toList true) (Spec.edges o.pts.toList o.closed))
+    (havr : NoContact (Spec.edges pts.toList true) (Spec.edges (Spec.rectPts o.rect.min o.rect.max) true))
+    (h : ringContainsRingBody (ringOf pts) (.bx o.rect) allowOnEdge = true) :
+    Spec.inRing (Spec.edges pts.toList true) o.pts[0]! = true := by
+  have hne' : ¬ ((o.closed && o.pts.size < 3) || o.pts.size < 2) = true := by
+    have : ((o.closed && o.pts.size < 3) || o.pts.size < 2) = false := hne
+    simp [this]
+  obtain ⟨hall, ⟨q, hq, hqx⟩, -, -, -⟩ :=
+    bboxSpec_tight o.pts.toList _ (rect_tight o.pts o.closed hne').symm
+  rw [← hrect] at hall hqx
+  have hok : BoxOk o.rect := by
+    obtain ⟨a1, a2, a3, a4⟩ := hall q hq
+    exact ⟨le_trans a1 a2, le_trans a3 a4⟩
+  rw [body_box pts o.rect allowOnEdge havr] at h
+  -- `q` lies on the left side of the rectangle
+  obtain ⟨hs, hp⟩ := box_sides pts.toList o.rect havr
+  have hon : OnSeg (o.rect.segmentAt 3).a (o.rect.segmentAt 3).b q := by
+    obtain ⟨a1, a2, a3, a4⟩ := hall q hq
+    simp only [Box.segmentAt]
+    apply onSeg_vert (a := ⟨o.rect.min.x, o.rect.max.y⟩) (b := ⟨o.rect.min.x, o.rect.min.y⟩) rfl hqx
+    · simp only; rw [min_eq_right hok.2]; exact a3
+    · simp only; rw [max_eq_left hok.2]; exact a4
+  have h3 : Spec.inRing (Spec.edges pts.toList true) (o.rect.segmentAt 3).a = true := by
+    have := (hp 3).2
+    rw [h] at this
+    exact this
+  have hq' := segment_inside_of_avoids pts.toList _ _ (hs 3 (by omega)) h3 q hon
+  obtain ⟨i, hi, rfl⟩ := List.getElem_of_mem hq
+  simp only [Array.length_toList] at hi
+  have hc := (chain_const pts.toList o.pts o.closed hne hav i hi).2
+  rw [getElem!_pos o.pts i hi] at hc
+  simp only [Array.getElem_toList] at hq'
+  rw [← hc]
+  unfold Spec.strictIn at hq'
+  unfold Spec.inRing
+  simp only [Bool.and_eq_true] at hq'
+  rw [hq'.2]; simp
+
+/-- **`ringContainsRing` without boundary contact, any number of points**, when the ring's edges
+    also avoid the sides of the argument's bounding rectangle (the hypothesis `havr` is only used
+    when the argument has 16 points or more). -/
+theorem ringContainsRing_of_avoids_rect (pts : Array Pt) (o : Series) (allowOnEdge : Bool)
+    (hrect : o.rect = (processPoints o.pts o.closed).rect)
+    (hav : NoContact (Spec.edges pts.toList true) (Spec.edges o.pts.toList o.closed))
+    (havr : 16 ≤ o.numPoints →
+      NoContact (Spec.edges pts.toList true) (Spec.edges (Spec.rectPts o.rect.min o.rect.max) true)) :
+    ringContainsRing (.ser (mkSeries pts true .none 0)) (.ser o) allowOnEdge =
+      (!o.empty && Spec.inRing (Spec.edges pts.toList true) o.pts[0]!) := by
+  by_cases hsmall : o.numPoints < 16
+  · exact ringContainsRing_of_avoids pts o allowOnEdge hrect hav hsmall
+  · have hbig : 16 ≤ o.numPoints := by omega
+    unfold ringContainsRing
+    by_cases he : o.empty = true
+    · simp [Ring.empty, he]
+    · have he' : o.empty = false := by simpa using he
+      by_cases h3 : pts.size < 3
+      · have : (ringOf pts).empty = true := by rw [ringOf_empty]; simpa using h3
+        rw [show (Ring.ser (mkSeries pts true .none 0)) = ringOf pts from rfl, this]
+        rw [edges_nil_of_short pts.toList (by simpa using h3), inRing_nil]
+        simp
+      · have : (ringOf pts).empty = false := by rw [ringOf_empty]; simpa using h3
+        rw [show (Ring.ser (mkSeries pts true .none 0)) = ringOf pts from rfl, this]
+        simp only [Ring.empty, he', Bool.or_false, Bool.false_eq_true, if_false, Bool.not_false,
+          Bool.true_and]
+        rw [body_series pts o allowOnEdge hrect he' hav]
+        split_ifs with hsc
+        · simp only [Bool.and_eq_true] at hsc
+          exact (shortcut_sound pts o allowOnEdge hrect he' hav (havr hbig) hsc.2).symm
+        · rfl
+
 end Geo
